@@ -62,7 +62,7 @@ private def handleOde (j : Json) : Except String Json := do
     -- a broken sampler contract is reported by Holds on the observed store, below
     let acc : Acc := {}
     let acc := match implTimes with
-      | some ts => acc.note 0 (Jinns.Holds.holdsTimes "time-store" tmin tmax nt ts)
+      | some ts => acc.note 0 (Jinns.Holds.holdsC08Ode tmin tmax nt bt ts [])
       | none => acc
     pure (result (some (e, "init")) Json.null acc)
   | .ok mtimes =>
@@ -71,12 +71,12 @@ private def handleOde (j : Json) : Except String Json := do
     | none => pure (result (match sliceGuard nt bt with | .error e => some (e, "batch") | .ok _ => none) ms {})
     | some times =>
       let mut acc : Acc := {}
-      acc := acc.note 0 (Jinns.Holds.holdsTimes "time-store" tmin tmax nt times)
       match sliceGuard nt bt with
-      | .error e => pure (result (some (e, "batch")) ms acc)
+      | .error e =>
+        pure (result (some (e, "batch")) ms (acc.note 0 (Jinns.Holds.holdsC08Ode tmin tmax nt bt times [])))
       | .ok _ =>
         let mut m := Minibatch.init times bt
-        let mut k := 0
+        let mut seen : List (List Rat) := []
         for s in steps do
           let perm ← getNatList s "times_perm"
           let t ← getRatList s "t"
@@ -85,8 +85,8 @@ private def handleOde (j : Json) : Except String Json := do
           m := r.1
           if !ok then acc := { acc with contract := false }
           if !(r.2 == t) then acc := { acc with agree := false }
-          acc := acc.note k (Jinns.Holds.holdsTimes "time-batch" tmin tmax bt t)
-          k := k + 1
+          seen := seen ++ [t]
+        acc := acc.note 0 (Jinns.Holds.holdsC08Ode tmin tmax nt bt times seen)
         pure (result none ms acc)
 
 private def freeColumn (rows : List (List (List Rat))) (c f : Nat) : List Rat :=
@@ -146,19 +146,7 @@ private def borderAgrees (m : BorderStore) (s : Stores) : Bool :=
 
 /-- `Holds.C08` on the stores of a stationary generator -/
 private def holdsStatioStores (a : StatioArgs) (s : Stores) : Option String :=
-  firstOf [
-    Jinns.Holds.holdsPoints "omega-store" a.mins a.maxs a.n s.omega,
-    match a.bb with
-    | none => if s.border2.isSome || s.border1.isSome then some "border-store-present-without-border-batch-size" else none
-    | some _ =>
-      if a.dim == 1 then
-        (if s.border1 == some [a.mins.getD 0 0, a.maxs.getD 0 0] then none
-         else some "border-1d-store-is-not-(xmin,xmax)")
-      else match s.border2 with
-        | none => some "border-store-missing"
-        | some rows =>
-          if 2 * a.dim * rows.length != a.nb.getD 0 then some "border-store-count"
-          else Jinns.Holds.holdsBorderRows "border-store" a.mins a.maxs rows.length rows]
+  Jinns.Holds.holdsC08StatioStores a.mins a.maxs a.n a.nb a.bb s.omega s.border2 s.border1
 
 /-- the model state of the border cursor -/
 private inductive BCur where
@@ -187,12 +175,12 @@ private def handleStatio (j : Json) : Except String Json := do
     | none => pure (result (match guard with | .error e => some (e, "batch") | .ok _ => none) ms {})
     | some s =>
       let mut acc : Acc := {}
-      acc := acc.note 0 (holdsStatioStores a s)
       if !(borderAgrees g.border s) then acc := { acc with agree := false }
       if a.method == "uniform" && !(g.omega == s.omega) then acc := { acc with agree := false }
       match guard with
-      | .error e => pure (result (some (e, "batch")) ms acc)
+      | .error e => pure (result (some (e, "batch")) ms (acc.note 0 (holdsStatioStores a s)))
       | .ok _ =>
+        let mut seen : List (List (List Rat) × Option (List (List (List Rat)))) := []
         let mut m := Minibatch.init s.omega a.b
         let mut bc : BCur := match g.border, s.border2 with
           | .facets _, some rows => .cur rows (Minibatch.init rows (g.bb.getD 0))
@@ -209,30 +197,20 @@ private def handleStatio (j : Json) : Except String Json := do
           m := r.1
           if !ok then acc := { acc with contract := false }
           if !(r.2 == x) then acc := { acc with agree := false }
-          acc := acc.note k (Jinns.Holds.holdsPoints "inside-batch" a.mins a.maxs a.b x)
+          seen := seen ++ [(x, dx)]
           match bc with
-          | .absent =>
-            if dx.isSome then
-              acc := { acc with agree := false }
-              acc := acc.note k (some "border-batch-present-without-border-batch-size")
-          | .fixed x0 x1 =>
-            if !(dx == some (borderBatch1d x0 x1)) then
-              acc := { acc with agree := false }
-              acc := acc.note k (some "border-1d-batch-is-not-(xmin,xmax)")
+          | .absent => if dx.isSome then acc := { acc with agree := false }
+          | .fixed x0 x1 => if !(dx == some (borderBatch1d x0 x1)) then acc := { acc with agree := false }
           | .cur rows0 bm =>
             let bperm ← getNatList sj "border_perm"
             let (bo, bok) := applyPerm rows0 bperm
             let br := Minibatch.next fn bm bo
             bc := .cur rows0 br.1
             if !bok then acc := { acc with contract := false }
-            match dx with
-            | none =>
-              acc := { acc with agree := false }
-              acc := acc.note k (some "border-batch-missing")
-            | some d =>
-              if !(br.2 == d) then acc := { acc with agree := false }
-              acc := acc.note k (Jinns.Holds.holdsBorderRows "border-batch" a.mins a.maxs (a.bb.getD 0) d)
+            if !(some br.2 == dx) then acc := { acc with agree := false }
           k := k + 1
+        acc := acc.note 0 (Jinns.Holds.holdsC08Statio a.mins a.maxs a.n a.nb a.b a.bb s.omega s.border2
+          s.border1 seen)
         pure (result none ms acc)
 
 /-- non-stationary generator.  request: statio fields + {cart, nt, bt, tmin, tmax,
@@ -251,7 +229,8 @@ private def handleNonStatio (j : Json) : Except String Json := do
     | some s => s.times.getD []
     | none => List.replicate nt tmin
   let holdsStores (s : Stores) : Option String :=
-    firstOf [holdsStatioStores a s, Jinns.Holds.holdsTimes "time-store" tmin tmax nt (s.times.getD [])]
+    Jinns.Holds.holdsC08NonStatio a.mins a.maxs tmin tmax a.n a.nb nt a.b a.bb bt cart
+      s.omega s.border2 s.border1 (s.times.getD []) []
   match mkNonStatio a cart bt nt tmin tmax (oracleOf a st) otimes with
   | .error e =>
     let acc : Acc := {}
@@ -268,13 +247,13 @@ private def handleNonStatio (j : Json) : Except String Json := do
     | some s =>
       let times := s.times.getD []
       let mut acc : Acc := {}
-      acc := acc.note 0 (holdsStores s)
       if !(borderAgrees g.statio.border s) then acc := { acc with agree := false }
       if a.method == "uniform" && !(g.statio.omega == s.omega && g.times == times) then
         acc := { acc with agree := false }
       match guard with
-      | .error e => pure (result (some (e, "batch")) ms acc)
+      | .error e => pure (result (some (e, "batch")) ms (acc.note 0 (holdsStores s)))
       | .ok _ =>
+        let mut seen : List (List (List Rat) × Option (List (List (List Rat)))) := []
         let border0 : Jinns.Cartesian.Border Rat := match g.statio.border, s.border2 with
           | .facets _, some rows => .facets (Minibatch.init rows (g.statio.bb.getD 0))
           | .ends x0 x1, _ => .fixed1d [x0, x1]
@@ -284,9 +263,6 @@ private def handleNonStatio (j : Json) : Except String Json := do
           { omega := Minibatch.init s.omega a.b, border := border0, times := Minibatch.init times bt,
             cart := cart, dim := a.dim }
         let fn := (g.statio.nb.getD 0) / (2 * a.dim)
-        let bbv := g.statio.bb.getD 0
-        let rowsIn := if cart then bt * a.b else a.b
-        let rowsBd := if a.dim == 1 then bt else if cart then bt * bbv else bbv
         let mut k := 0
         for sj in steps do
           let operm ← getNatList sj "omega_perm"
@@ -303,12 +279,10 @@ private def handleNonStatio (j : Json) : Except String Json := do
           ns := r.1
           if !(ok1 && ok2 && ok3) then acc := { acc with contract := false }
           if !(r.2.1 == tx && r.2.2 == tdx) then acc := { acc with agree := false }
-          acc := acc.note k (Jinns.Holds.holdsTX a.mins a.maxs tmin tmax rowsIn tx)
-          match a.bb, tdx with
-          | none, none => pure ()
-          | some _, some td => acc := acc.note k (Jinns.Holds.holdsTDX a.mins a.maxs tmin tmax rowsBd td)
-          | _, _ => acc := acc.note k (some "border-batch-presence-differs-from-the-border-setting")
+          seen := seen ++ [(tx, tdx)]
           k := k + 1
+        acc := acc.note 0 (Jinns.Holds.holdsC08NonStatio a.mins a.maxs tmin tmax a.n a.nb nt a.b a.bb bt cart
+          s.omega s.border2 s.border1 times seen)
         pure (result none ms acc)
 
 def handleC08 (j : Json) : Except String Json := do
